@@ -445,6 +445,10 @@ def _run(ctx):
     from ..rules import thriftrt
     nrt = thriftrt.check(ctx)
     ctx.floor("C13 round-trip probes", nrt, 3)
+    ctx.clause("C13.8 Thrift varints and binary length prefixes are LEB128 on both sides (values on either side of every 7-bit boundary)")
+    from ..rules import varint
+    nvw, nvr = varint.check(ctx, files=("src/thrift/thrift_encode.c", "src/thrift/thrift_decode.c"))
+    ctx.floor("C13 Thrift varint writers and readers", nvw + nvr, 3)
     ctx.clause("C13.6 a binary field is written with the length member the parser fills for the same bytes")
     nbin = _binary_pairs(ctx)
     ctx.count("binary_pairs_written", nbin)
